@@ -514,10 +514,16 @@ def run(ctx):
 
     # ------------------------------------------------------------ R07.6
     n_c = 0
-    for fname in ("InterrogateBuilder::define_enum_type", "InterrogateBuilder::scan_manifest", "InterrogateBuilder::define_array_type"):
-        fn = db.fn(fname)
+    # every consumer in the builder and the generators (found by the callee, so a new one is included)
+    consumers = []
+    for fn0 in db.functions:
+        if "/interrogate/" in fn0.file and not fn0.file.endswith("parse_file.cxx") and any(
+                c.get("k") == "call" and c.get("f") == "CPPExpression::Result::as_integer" for c in fn0.walk()):
+            consumers.append(fn0)
+    for fn in consumers:
+        fname = fn.name
         for c in fn.walk():
-            if c.get("k") == "call" and callee_short(c) == "as_integer" and "this" in c:
+            if c.get("k") == "call" and c.get("f") == "CPPExpression::Result::as_integer" and "this" in c:
                 n_c += 1
                 obj = peel(c["this"])
                 r = local_ref(obj)
@@ -535,7 +541,7 @@ def run(ctx):
                     for x, y in ((a, b), (b, a)):
                         if (field_of(x) or "").endswith("Result::_type") and (local_ref(base_of(x)) or {}).get("d") == d and y is not None and y.get("k") == "ref":
                             nm = y["n"].split("::")[-1]
-                            if (nm == "RT_integer" and o == "==") or (nm == "RT_error" and o == "!="):
+                            if (nm in ("RT_integer", "RT_pointer") and o == "==") or (nm == "RT_error" and o == "!="):
                                 return True
                     return False
                 ok = G.gated(fn, c, G.edges_where(fn, is_int))
